@@ -283,5 +283,38 @@ func main() {
 		f.Def("initialMultiplier", "Nat", N(mult), "BackoffMultiplier right after LoadFromConfig")
 		f.Def("initialFailures", "Nat", N(fails), "ConsecutiveFailures right after LoadFromConfig")
 	}
+	// the conversion of configured endpoints into domain endpoints: per entry, what was configured and what the
+	// repository holds (several entries at once, distinct URLs)
+	{
+		type ce struct {
+			name, typ string
+			prio      int
+			iv, to    time.Duration
+			preserve  bool
+		}
+		grid := []ce{{"a", "ollama", 100, 5 * time.Second, 2 * time.Second, false}, {"b", "vllm", 1, 13 * time.Second, 5 * time.Second, true},
+			{"c", "openai-compatible", 50, 61 * time.Second, 30 * time.Second, false}, {"d", "lm-studio", 0, 2 * time.Second, time.Second, true}}
+		var cfgs []config.EndpointConfig
+		for i, e := range grid {
+			pr := e.prio
+			cfgs = append(cfgs, config.EndpointConfig{Name: e.name, URL: fmt.Sprintf("http://verif%d.invalid:1", i), Type: e.typ, Priority: &pr,
+				HealthCheckURL: "/health", ModelURL: "/models", CheckInterval: e.iv, CheckTimeout: e.to, PreservePath: e.preserve})
+		}
+		repo := discovery.NewStaticEndpointRepository()
+		err := repo.LoadFromConfig(context.Background(), cfgs)
+		eps, _ := repo.GetAll(context.Background())
+		var rows []string
+		for _, e := range grid {
+			row := vlib.LeanTuple(vlib.LeanStr(e.name), vlib.LeanStr("missing"), I(0), I(0), I(0), vlib.LeanBool(false))
+			for _, d := range eps {
+				if d.Name == e.name {
+					row = vlib.LeanTuple(vlib.LeanStr(e.name), vlib.LeanStr(d.Type), I(time.Duration(d.Priority)), I(d.CheckInterval), I(d.CheckTimeout), vlib.LeanBool(d.PreservePath))
+				}
+			}
+			rows = append(rows, vlib.LeanTuple(vlib.LeanTuple(vlib.LeanStr(e.name), vlib.LeanStr(e.typ), I(time.Duration(e.prio)), I(e.iv), I(e.to), vlib.LeanBool(e.preserve)), row))
+		}
+		f.Def("endpointConversion", "List ((String × String × Int × Int × Int × Bool) × (String × String × Int × Int × Int × Bool))", vlib.LeanList(rows),
+			fmt.Sprintf("(configured name, type, priority, check_interval, check_timeout, preserve_path) and what StaticEndpointRepository.LoadFromConfig made of it (load error: %v)", err))
+	}
 	f.Write(ns)
 }
